@@ -163,6 +163,53 @@ func checkConfig(r *hlib.Rec, vol float64, R, f, peak, sigma time.Duration, w []
 	r.Distinct(fmt.Sprintf("ticks=%d peak=%s sigma/R=%.2f w=%d vol=%v", ticks, peak, float64(sigma)/float64(R), len(w), vol > 0))
 }
 
-func suites(tier string) []hlib.Suite { return []hlib.Suite{suite(tier == "quick")} }
+// spellingSuite: a weights string with empty elements (a trailing, leading or doubled comma) either is rejected or
+// means the list of the weights it does spell: the empty elements are not windows of weight zero.
+func spellingSuite() hlib.Suite {
+	return hlib.Suite{Name: "gaussian/weights-string-spellings", Run: func(r *hlib.Rec) {
+		R, f := time.Hour, time.Minute
+		for _, w := range [][]float64{{1, 3}, {2}, {1, 2, 3}, {0.5, 1.5}} {
+			clean := wstr(w)
+			spellings := []string{clean + ",", "," + clean, strings.Replace(clean, ",", ",,", 1), clean + ",,", " " + clean}
+			for _, sp := range spellings {
+				if sp == clean {
+					continue
+				}
+				for _, vol := range []float64{100000, 777} {
+					r.Eval()
+					input := fmt.Sprintf("volume=%v repeat=%s frequency=%s peak=30m stddev=10m weights=%q (the list it spells: %q)", vol, R, f, sp, clean)
+					r.SampleCase(input)
+					ref, err := gaussian.CalculateGaussianRate(vol, 0, R, f, 30*time.Minute, 10*time.Minute, clean, "none")
+					if err != nil {
+						r.Fail("C11/rejected", "valid-config", err.Error(), input)
+						continue
+					}
+					got, err := gaussian.CalculateGaussianRate(vol, 0, R, f, 30*time.Minute, 10*time.Minute, sp, "none")
+					if err != nil {
+						r.Distinct("rejected " + sp)
+						continue // rejecting the spelling is fine
+					}
+					base := time.Date(2024, 1, 1, 0, 0, 0, 0, time.UTC).Truncate(R * time.Duration(12))
+					for win := 0; win < 2*len(w)+2; win++ {
+						var a, b int64
+						for k := 0; k < int(R/f); k++ {
+							t := base.Add(time.Duration(win)*R + time.Duration(k)*f)
+							a += int64(ref.Rate(t))
+							b += int64(got.Rate(t))
+							r.Step()
+						}
+						if a != b {
+							r.Fail("C11/volume", "weights-spelling-changes-the-windows", fmt.Sprintf("window %d: %d requested, the same list spelled %q requests %d", win, b, clean, a), input)
+							break
+						}
+					}
+					r.Distinct("accepted " + sp)
+				}
+			}
+		}
+	}}
+}
+
+func suites(tier string) []hlib.Suite { return []hlib.Suite{suite(tier == "quick"), spellingSuite()} }
 
 func main() { hlib.EnumMain("C11", suites) }
